@@ -49,6 +49,9 @@ var c19Corpus = []string{
 	`x = {hv2({1: 1, 2: 2, 3: 3}): 1, hv2({1: 1, 2: 2, 3: 4}): 2}; return len(x);`,
 	`function f(h) { return len(h); } x = {f({"a": 1, "b": 2, "c": 3}): hv2("p"), f({"a": 1, "b": 2, "d": 4}): hv2("q"), f({"z": 1}): hv2("r")}; return string(x);`,
 	`x = [{"b": hv2(1), "a": hv2(2)}, {"d": {"y": hv2(3), "x": hv2(4)}, "c": hv2(5)}]; return string(x);`,
+	`function f1() { return 1; } function f2() { return 2; } function f3() { return 3; } function g1() { return f1(); } hv(f1() + f2()); return f9() + g7();`,
+	`hv(Retries, Label, Ratio, Next, M); return string(Retries) + string(Label) + string(M);`,
+	`x = 1 + 2 * 3; y = 1 == 1; if (2 > 1) { z = "a" + "b"; } function k() { return 10 / 5 + 1; } return k() + x;`,
 	`hv(id, Id, ID, url, URL, a, A, items, s, b); return string(id) + string(url) + string(iD);`,
 	`hv(M["key"], M["KEY"], M.key, keys(M)); foreach k, v in M { hv(k, v); } return len(M);`,
 	`x = {10: "ten", 2: "two", "1a": "str", 3.5: "f", "3.5": "s"}; hv(keys(x)); foreach k, v in x { hv(k); } return string(x);`,
@@ -59,7 +62,7 @@ func (p *c19) Enumerate(tier string) [][]int32 {
 	var out [][]int32
 	for i := range c19Corpus {
 		for opt := 0; opt < 2; opt++ {
-			for ob := 0; ob < 4; ob++ {
+			for ob := 0; ob < 5; ob++ {
 				out = append(out, []int32{1, int32(i), int32(opt), int32(ob)})
 			}
 		}
@@ -81,7 +84,7 @@ func (p *c19) RandomRuns(tier string) int {
 type c19Case struct {
 	text  string
 	opt   bool
-	objs  []interface{}
+	objs  []func() interface{}
 	descs []string
 	init  int
 	names []string
@@ -99,10 +102,39 @@ type c19Obs struct {
 	traceA  string
 }
 
-func c19Object(c *verifsim.Chooser) (interface{}, string) {
-	switch c.Intn(5) {
+// c19PtrObj has pointer members: whatever the engine makes of them must not
+// depend on where they were allocated.
+type c19PtrObj struct {
+	A, B, C int
+	S       string
+	Items   []int
+	Retries *int
+	Label   *string
+	Ratio   *float64
+	Next    *c19PtrObj
+	M       map[string]interface{}
+}
+
+// c19Object returns a constructor: every execution of a case builds its own
+// (equal, but separately allocated) objects.
+func c19Object(c *verifsim.Chooser) (func() interface{}, string) {
+	switch c.Intn(6) {
 	case 0:
-		return nil, "nil"
+		return func() interface{} { return nil }, "nil"
+	case 5:
+		return func() interface{} {
+			n, l, r := 3, "lbl", 0.5
+			pad := make([]byte, 64) // move the allocation around a little
+			_ = pad
+			return &c19PtrObj{A: 1, B: 2, C: 3, S: "hall", Items: []int{2, 1}, Retries: &n, Label: &l, Ratio: &r, Next: &c19PtrObj{A: 9}, M: map[string]interface{}{"p": &n, "q": 1}}
+		}, "struct with pointer members"
+	}
+	ob, d := c19ObjectValue(c)
+	return func() interface{} { return ob }, d
+}
+
+func c19ObjectValue(c *verifsim.Chooser) (interface{}, string) {
+	switch 1 + c.Intn(4) {
 	case 1:
 		m := map[string]interface{}{"A": 2, "B": 1, "C": 3, "S": "hall", "Items": []interface{}{3, 1, 2},
 			"M": map[string]interface{}{"b": 1, "a": "x", "c": []interface{}{1, "z"}, "d": map[string]interface{}{"y": 1, "x": 2}}}
@@ -154,7 +186,8 @@ func (p *c19) execute(cs *c19Case, pol *verifsim.OrderPolicy) *c19Obs {
 	}
 	d, _, _ := doDump(e)
 	ob.dump1 = normDump(d)
-	for _, o := range cs.objs {
+	for _, mk := range cs.objs {
+		o := mk()
 		ctx.Rearm(-1)
 		ctx.HardCap = 8000
 		h.Trace = h.Trace[:0]
@@ -177,7 +210,7 @@ func (p *c19) execute(cs *c19Case, pol *verifsim.OrderPolicy) *c19Obs {
 		h.nMaybe = 0
 		var o interface{}
 		if len(cs.objs) > 0 {
-			o = cs.objs[0]
+			o = cs.objs[0]()
 		}
 		var r Result
 		under(ctx, func() { r = doExecute(e, o) })
@@ -347,8 +380,8 @@ func (p *c19) Run(c *verifsim.Chooser, st *Stats, render bool) *Outcome {
 	if mode == 1 {
 		cs.text = c19Corpus[c.Intn(len(c19Corpus))]
 		cs.opt = c.Intn(2) == 0
-		for i := c.Intn(4); i >= 0; i-- {
-			ob, d := c19Object(verifsim.NewReplay([]int32{int32(i + 1)}))
+		for i := c.Intn(5); i >= 0; i-- {
+			ob, d := c19Object(verifsim.NewReplay([]int32{int32(i + 1), int32(i)}))
 			cs.objs = append(cs.objs, ob)
 			cs.descs = append(cs.descs, d)
 		}
@@ -390,7 +423,13 @@ func (p *c19) Run(c *verifsim.Chooser, st *Stats, render bool) *Outcome {
 		o.violate("C19/second-prepare", "program-differs", "the program after a second Prepare of the same evaluator differs from the first:\n%s", firstDiff(ref.dump1, ref.dump2))
 	}
 
-	// same order again on a fresh evaluator: everything is at other addresses
+	// the same text prepared with the other optimizer setting in between
+	// (anything shared between evaluators of one process must not be changed
+	// by that), then the same order again on a fresh evaluator: everything is
+	// at other addresses
+	flipped := *cs
+	flipped.opt = !cs.opt
+	p.execute(&flipped, &verifsim.OrderPolicy{Kind: verifsim.OrdAsc})
 	again := p.execute(cs, &verifsim.OrderPolicy{Kind: verifsim.OrdAsc})
 	if what, det := ref.diff(again); what != "" {
 		o.violate("C19/unstable", what, "two executions under the same map order differ (addresses? hidden global state?): %s", det)
